@@ -5,7 +5,7 @@ CONSTANTS
   ForcedBreaks = "asCoded"
   MaxNodes = 3
   MaxDepth = 3
-  Kinds = {"text", "el", "slot", "hcomment", "gcomment", "mcomment", "gocodeml", "raw", "call", "gocode", "doctype"}
+  Kinds = {"text", "el", "slot", "hcomment", "gcomment", "mcomment", "gocodeml", "raw", "call", "gocode", "gocodei", "doctype"}
   InlineNames = {"span"}
   BlockNames = {"div"}
   VoidNames = {"br"}
